@@ -130,8 +130,14 @@ Section Specs.
   Definition done (p : printbuffer) (T txt : bytes) : Prop :=
     exists rest, buf_is p (T ++ txt) (0 :: rest) /\ zlen T <= pb_offset p <= zlen T + zlen txt.
 
+  (** size of the block the buffer pointer designates *)
+  Definition blen (p : printbuffer) : Z := match pb_buf p with Some b => zlen b | None => -1 end.
+  (** a caller-supplied buffer (noalloc): the allocator is never called and the block keeps its size *)
+  Definition quiet (p p' : printbuffer) : Prop :=
+    pb_noalloc p = true -> pb_req p' = pb_req p /\ pb_live p' = pb_live p /\ blen p' = blen p.
+  (** what no step changes, successful or not *)
   Definition frame (p p' : printbuffer) : Prop :=
-    pb_format p' = pb_format p /\ pb_noalloc p' = pb_noalloc p /\ pb_realloc p' = pb_realloc p.
+    pb_format p' = pb_format p /\ pb_noalloc p' = pb_noalloc p /\ pb_realloc p' = pb_realloc p /\ quiet p p'.
   (** [k] bytes can be made available: they fit (caller buffer) or the buffer may grow to them *)
   Definition room (p : printbuffer) (k : Z) : Prop :=
     k <= c_INT_MAX /\
@@ -140,9 +146,22 @@ Section Specs.
   Definition grown (p p' : printbuffer) : Prop :=
     pb_length p <= pb_length p' /\ (pb_noalloc p = true -> pb_length p' = pb_length p /\ pb_req p' = pb_req p /\ pb_live p' = pb_live p).
 
-  Lemma frame_refl p : frame p p. Proof. repeat split. Qed.
+  Lemma frame_refl p : frame p p.
+  Proof. split; [|split; [|split]]; try reflexivity. intros _. repeat split. Qed.
   Lemma frame_trans p q r : frame p q -> frame q r -> frame p r.
-  Proof. unfold frame. intros (a & b & c) (d & e & f). repeat split; congruence. Qed.
+  Proof.
+    unfold frame, quiet. intros (a & b & c & q1) (d & e & f & q2).
+    split; [congruence|]. split; [congruence|]. split; [congruence|].
+    intros H. destruct (q1 H) as (x1 & x2 & x3). rewrite <- b in H. destruct (q2 H) as (y1 & y2 & y3).
+    repeat split; congruence.
+  Qed.
+  (* steps that touch neither the block nor the allocator *)
+  Lemma frame_same p p' :
+    pb_format p' = pb_format p -> pb_noalloc p' = pb_noalloc p -> pb_realloc p' = pb_realloc p ->
+    pb_buf p' = pb_buf p -> pb_req p' = pb_req p -> pb_live p' = pb_live p -> frame p p'.
+  Proof. intros a b c d e f. split; [exact a|]. split; [exact b|]. split; [exact c|]. intros _. unfold blen. rewrite d. auto. Qed.
+  Lemma frame_set_offset p o : frame p (set_offset p o). Proof. apply frame_same; reflexivity. Qed.
+  Lemma frame_set_depth p o : frame p (set_depth p o). Proof. apply frame_same; reflexivity. Qed.
   Lemma grown_refl p : grown p p. Proof. split; [lia|]. intros _. repeat split. Qed.
   Lemma grown_trans p q r : frame p q -> grown p q -> grown q r -> grown p r.
   Proof.
@@ -163,12 +182,14 @@ Section Specs.
   (** a write of [l] at the distance [i] from the cursor, landing right after the prefix [A] *)
   Lemma put_spec (p : printbuffer) (A rest l : bytes) (i : Z) :
     buf_is p A rest -> pb_offset p + i = zlen A -> zlen l <= zlen rest ->
-    exists rest' p', put p i l = Ok p' /\ p' = set_buf p (Some (A ++ l ++ rest')) /\ buf_is p' (A ++ l) rest'.
+    exists rest' p', put p i l = Ok p' /\ p' = set_buf p (Some (A ++ l ++ rest')) /\ buf_is p' (A ++ l) rest' /\ frame p p'.
   Proof.
     intros (Hb & Hl) Hi Hfit. unfold put. rewrite Hb, Hi.
     destruct (wr_bytes_app l A rest Hfit) as (rest' & E & L). rewrite E. cbn [bind].
     exists rest'. eexists. split; [reflexivity|]. split; [reflexivity|].
-    split; [cbn; rewrite <- app_assoc; reflexivity|]. cbn. rewrite zlen_app. lia.
+    split; [split; [cbn; rewrite <- app_assoc; reflexivity|cbn; rewrite zlen_app; lia]|].
+    split; [reflexivity|]. split; [reflexivity|]. split; [reflexivity|]. intros _.
+    split; [reflexivity|]. split; [reflexivity|]. unfold blen. cbn [pb_buf set_buf]. rewrite Hb, !zlen_app. lia.
   Qed.
 
   (** ---------------------------------------------------------------- update_offset *)
@@ -236,9 +257,9 @@ Section Specs.
     destruct (pb_realloc p) eqn:C6.
     - (* realloc *)
       unfold reallocate. destruct (oracle (pb_req p)) eqn:Or.
-      + eexists false, _. split; [reflexivity|]. split; [repeat split|]. split; [discriminate|].
+      + eexists false, _. split; [reflexivity|]. split; [split; [reflexivity|split; [reflexivity|split; [reflexivity|intros Hna; rewrite C4 in Hna; discriminate Hna]]]|]. split; [discriminate|].
         intros (_ & [[R _]|[_ R]]); [congruence|]. rewrite R in Or. discriminate.
-      + eexists true, _. split; [reflexivity|]. split; [repeat split|]. split; [|reflexivity]. intros _.
+      + eexists true, _. split; [reflexivity|]. split; [split; [reflexivity|split; [reflexivity|split; [reflexivity|intros Hna; rewrite C4 in Hna; discriminate Hna]]]|]. split; [|reflexivity]. intros _.
         assert (Hf : firstn (Z.to_nat newsize) (T ++ rest) = T ++ rest).
         { apply firstn_all2. unfold zlen in *. rewrite app_length. lia. }
         rewrite Hf.
@@ -252,7 +273,7 @@ Section Specs.
         split; [cbn; lia|]. split; [reflexivity|]. split; [cbn; lia|]. intros Hna; rewrite C4 in Hna; discriminate Hna.
     - (* allocate + memcpy + deallocate *)
       unfold allocate. destruct (oracle (pb_req p)) eqn:Or.
-      + eexists false, _. split; [reflexivity|]. split; [repeat split|]. split; [discriminate|].
+      + eexists false, _. split; [reflexivity|]. split; [split; [reflexivity|split; [reflexivity|split; [reflexivity|intros Hna; rewrite C4 in Hna; discriminate Hna]]]|]. split; [discriminate|].
         intros (_ & [[R _]|[_ R]]); [congruence|]. rewrite R in Or. discriminate.
       + cbn [pb_length set_alloc pb_offset].
         destruct (Z.ltb_spec 0 (pb_length p)) as [Lpos|Lz].
@@ -265,7 +286,7 @@ Section Specs.
           destruct (wr_bytes_app (T ++ [x]) [] (fresh junk newsize)) as (rest' & E & L').
           { rewrite fresh_len by lia. rewrite zlen_app, zlen_cons, zlen_nil. lia. }
           change (zlen (@nil Z)) with 0 in E. cbn [app] in E. rewrite E. cbn [bind].
-          eexists true, _. split; [reflexivity|]. split; [repeat split|]. split; [|reflexivity]. intros _.
+          eexists true, _. split; [reflexivity|]. split; [split; [reflexivity|split; [reflexivity|split; [reflexivity|intros Hna; rewrite C4 in Hna; discriminate Hna]]]|]. split; [|reflexivity]. intros _.
           rewrite fresh_len in L' by lia. rewrite zlen_app, zlen_cons, zlen_nil in L'.
           split.
           { exists (x :: rest'). split; [split; [cbn; rewrite <- app_assoc; reflexivity|cbn; rewrite zlen_cons; lia]|].
@@ -275,7 +296,7 @@ Section Specs.
           cbn [bind].
           assert (zlen T = 0 /\ zlen rest = 0) as (HT0 & HR0) by lia.
           apply zlen_0_nil in HT0. apply zlen_0_nil in HR0. subst T rest.
-          eexists true, _. split; [reflexivity|]. split; [repeat split|]. split; [|reflexivity]. intros _.
+          eexists true, _. split; [reflexivity|]. split; [split; [reflexivity|split; [reflexivity|split; [reflexivity|intros Hna; rewrite C4 in Hna; discriminate Hna]]]|]. split; [|reflexivity]. intros _.
           split.
           { exists (fresh junk newsize). split; [split; [reflexivity|cbn; rewrite fresh_len by lia; reflexivity]|].
             split; [exact Ho|]. cbn. rewrite fresh_len by lia. change (zlen (@nil Z)) with 0 in *. lia. }
@@ -283,3 +304,17 @@ Section Specs.
           split; [cbn; lia|]. split; [reflexivity|]. split; [cbn; lia|]. intros Hna; rewrite C4 in Hna; discriminate Hna.
   Qed.
 End Specs.
+
+(** ------------------------------------------------------------------ building the libc contract *)
+(** [LibcPrintSpec] only constrains the conversions on IEEE binary64 arguments ([valid_dbl]).  A
+    contract stated for every finite [spec_float] (without that premise) is stronger; this lemma
+    turns such clauses into the record. *)
+Lemma LibcPrintSpec_of_unconditional (fmt_d : Z -> bytes) (fmt_g15 fmt_g17 : dbl -> bytes) :
+  (forall z, int_range z = true -> Forall (fun c => c <> 0) (fmt_d z)) ->
+  (forall d, is_finite d = true -> Forall (fun c => c <> 0) (fmt_g15 d)) ->
+  (forall d, is_finite d = true -> Forall (fun c => c <> 0) (fmt_g17 d)) ->
+  (forall z, int_range z = true -> zlen (fmt_d z) <= c_NUMBER_BUFFER_SIZE - 1) ->
+  (forall d, is_finite d = true -> zlen (fmt_g15 d) <= c_NUMBER_BUFFER_SIZE - 1) ->
+  (forall d, is_finite d = true -> zlen (fmt_g17 d) <= c_NUMBER_BUFFER_SIZE - 1) ->
+  LibcPrintSpec fmt_d fmt_g15 fmt_g17.
+Proof. intros a b c d e f. constructor; auto. Qed.
